@@ -802,7 +802,7 @@ static void gen_expr(Node *node) {
     Member *mem = node->member;
     if (mem->is_bitfield) {
       println("  shl $%d, %%rax", 64 - mem->bit_width - mem->bit_offset);
-      if (mem->ty->is_unsigned)
+      if (mem->ty->is_unsigned || mem->ty->kind == TY_BOOL)
         println("  shr $%d, %%rax", 64 - mem->bit_width);
       else
         println("  sar $%d, %%rax", 64 - mem->bit_width);
